@@ -18,6 +18,15 @@ def _override(ctx, table):
     model.call = call
 
 
+def _scan_replay(kind_no, what):
+    def replay(eng, model):
+        nat = eng.native("almanac_scan", kind_no)
+        if nat in ("NONE", "PANIC", "UNKNOWN", ""):
+            return nat == "PANIC", "native scan of 900 real days: " + (nat or "no output")
+        return True, "%s violated on a real day: %s" % (what, nat)
+    return replay
+
+
 def _kind(p, kind):
     if not (isinstance(p.ret, Obj) and p.ret.kind == kind):
         return "result is not a modelled %s" % kind
@@ -52,7 +61,8 @@ def k_mansion(eng, route):
                     ("one-per-day", "(= %s (mod (+ %s 11) 28))" % (p.ret.idx.s, N.s))]
         return ctx, paths, pre, posts, lambda p: _kind(p, "TwentyEightStar")
 
-    r = run_kernel(eng, "17.e/B/mansion/%s" % route, "17.e", "every (weekday, day pillar) pair a day number can have: day numbers 2451545..2451964, one full 420-day period", build, None, None)
+    r = run_kernel(eng, "17.e/B/mansion/%s" % route, "17.e", "every (weekday, day pillar) pair a day number can have: day numbers 2451545..2451964, one full 420-day period", build, None,
+                   _scan_replay(4 if route == "LunarDay" else 5, "28-mansion rule (+1 per day from the library's own anchor, luminary = weekday)"))
     return _finish(r, holder["ctx"]) if "ctx" in holder else r
 
 
@@ -87,7 +97,7 @@ def k_duty_twelve(eng, which):
             return [("spirit", "(= %s (mod (- %s %s) 12))" % (p.ret.idx.s, db, s))]
         return ctx, paths, pre, posts, lambda p: _kind(p, kind)
 
-    r = run_kernel(eng, "17.g/B/%s" % which, "17.g", "all 60 month pillars x 60 day pillars", build, None, None)
+    r = run_kernel(eng, "17.g/B/%s" % which, "17.g", "all 60 month pillars x 60 day pillars", build, None, _scan_replay(0 if which == "duty" else 1, "day officer rule" if which == "duty" else "day spirit rule"))
     return _finish(r, holder["ctx"]) if "ctx" in holder else r
 
 
@@ -116,7 +126,38 @@ def k_hour_twelve(eng):
             return [("spirit", "(= %s (mod (- %s %s) 12))" % (p.ret.idx.s, hb, s))]
         return ctx, paths, pre, posts, lambda p: _kind(p, "TwelveStar")
 
-    r = run_kernel(eng, "17.g/B/hour-twelve", "17.g", "all 60 day pillars x 60 hour pillars", build, None, None)
+    r = run_kernel(eng, "17.g/B/hour-twelve", "17.g", "all 60 day pillars x 60 hour pillars", build, None, _scan_replay(3, "hour spirit rule (instant-level view)"))
+    return _finish(r, holder["ctx"]) if "ctx" in holder else r
+
+
+def k_lunar_hour_twelve(eng):
+    """LunarHour::get_twelve_star: the spirit starts from the branch fixed by the branch of the day the hour belongs to — from 23:00 the
+    NEXT day's pillar (the instant-level view's day, assumed here to be the rolled pillar) — and advances with the hour branch"""
+    holder = {}
+
+    def build(eng):
+        fields = struct_fields(os.path.join(REPO, "src/tyme/lunar.rs"), "LunarHour")
+        fn = M.find_fn(eng.fns, "get_twelve_star", "&LunarHour")
+        ctx = _ctx(eng, {})
+        rec = Rec(ctx, "self", "LunarHour")
+        hour = rec.field(fields.index("hour"), "usize")
+        dp = ctx.fresh_value("day_pillar", "usize")
+        holder.update(ctx=ctx)
+        rolled = T("(ite (>= %s 23) (mod (+ %s 1) 60) %s)" % (hour.s, dp.s, dp.s), "Int")
+        hb = "(mod (div (+ %s 1) 2) 12)" % hour.s
+        hp = ctx.fresh_value("hour_pillar", "usize")
+        _override(ctx, {"LunarHour::get_sixty_cycle": Obj("SixtyCycle", hp), "LunarDay::get_sixty_cycle": Obj("SixtyCycle", dp),
+                        "LunarHour::get_sixty_cycle_hour": Rec(ctx, "sch"), "SixtyCycleHour::get_day": Obj("SixtyCycle", rolled)})
+        paths = ctx.run(fn, [("refrec", rec)])
+        pre = ["(<= 0 %s 23)" % hour.s, "(<= 0 %s 59)" % dp.s, "(<= 0 %s 59)" % hp.s, "(= (mod %s 12) %s)" % (hp.s, hb)]
+        db = "(mod %s 12)" % rolled.s
+
+        def posts(p):
+            s = "(ite (= (mod %s 6) 0) 8 (ite (= (mod %s 6) 1) 10 (ite (= (mod %s 6) 2) 0 (ite (= (mod %s 6) 3) 2 (ite (= (mod %s 6) 4) 4 6)))))" % (db, db, db, db, db)
+            return [("spirit", "(= %s (mod (- %s %s) 12))" % (p.ret.idx.s, hb, s))]
+        return ctx, paths, pre, posts, lambda p: _kind(p, "TwelveStar")
+
+    r = run_kernel(eng, "17.g/B/lunar-hour-twelve", "17.g", "all 60 day pillars x 24 hours", build, None, _scan_replay(2, "hour spirit rule (lunar-hour route)"))
     return _finish(r, holder["ctx"]) if "ctx" in holder else r
 
 
@@ -149,5 +190,5 @@ def k_phase_ren(eng, which):
         paths = ctx.run(fn, [("refrec", rec)])
         return ctx, paths, pre, (lambda p: [("ren", "(= %s (mod (+ (- %s 1) (- %s 1)) 6))" % (p.ret.idx.s, month.s, day.s))]), (lambda p: _kind(p, "MinorRen"))
 
-    r = run_kernel(eng, "17.b/B/%s" % which, "17.b", "every month 1..12, every day 1..30", build, None, None)
+    r = run_kernel(eng, "17.b/B/%s" % which, "17.b", "every month 1..12, every day 1..30", build, None, _scan_replay({"phase": 6, "ren-month": 7, "ren-day": 8}[which], which))
     return _finish(r, holder["ctx"]) if "ctx" in holder else r
